@@ -1,5 +1,7 @@
 import DoltVerif.Lemmas.VcsOpsExec
 import DoltVerif.Lemmas.VcsOpsSchemaExec
+import DoltVerif.Lemmas.VcsOpsDiffTable
+import DoltVerif.Lemmas.VcsOpsWfb
 /-!
 C32 — Diffs and patches describe exactly the change between two commits.
 
@@ -258,5 +260,38 @@ theorem patch_roundtrip_full_false : ¬ patch_roundtrip_full := by
             (rootWF_of_b _ (by decide)) (rootWF_of_b _ (by decide))
   revert this
   decide
+
+/-! ### diff_tables_agree -/
+
+/-- **diff_tables_agree.**  What `dolt_diff_<t>` promises on a *linear* history
+`HEAD = c₀ → c₁ → … → cₙ` (`IsChain`: every commit's only parent is the next one, the last has none —
+no merge commit and no commit with two children in HEAD's ancestry; for those the scan registers one
+child per commit and loses an edge: known finding `C32/dolt_diff_t/merge-edge-missing`):
+the rows are exactly `chainDiff`, i.e. the concatenation, newest first, of
+`diff(c₀, WORKING)`, `diff(c₁, c₀)`, …, `diff(cₙ, cₙ₋₁)` — each the stored-table diff of the two
+adjacent commits with both sides laid out by the current working column list, tagged
+`(to_commit, from_commit)` — skipping pairs whose tables are equal and ending at the first pair whose
+newer side has no table `t`.  (`none` iff the working root has no table `t`.) -/
+theorem diff_tables_agree (d : Db) (t : String) (wt : Table) (rest : List Nat)
+    (hw : get d.ws.working t = some wt) (hch : IsChain d (d.headId :: rest)) (hnd : (d.headId :: rest).Nodup)
+    (hlen : rest.length + 1 ≤ d.commits.length) :
+    d.diffTable t = some (chainDiff d t wt.cols none (some wt) (d.headId :: rest)) := by
+  unfold Db.diffTable
+  simp only [hw]
+  rw [walk_chain d d.headId rest hch hnd hlen]
+  congr 1
+  have := diffTableAux_chain d t wt.cols (d.headId :: rest) [(d.headId, none, some wt)] [] none (some wt) hch hnd
+    (by intro c r e; cases e; simp)
+  simpa using this
+
+/-- the hypotheses are satisfiable: `main` of `exDb` is the chain 2 → 1 → 0; with an extra uncommitted
+row the table function is `diff(2, WORKING) ++ diff(1, 2) ++ diff(0, 1)` -/
+def exDb' : Db := (exDb.apply (.dml (.insert "t" 7 [.int 1, .null, .null]))).2
+
+example : exDb'.headId = 2 ∧ exDb'.parentsOf 2 = [1] ∧ exDb'.parentsOf 1 = [0] ∧ exDb'.parentsOf 0 = [] ∧
+    exDb'.diffTable "t" = some (chainDiff exDb' "t" [⟨"a", .int⟩, ⟨"b", .str⟩, ⟨"c", .int⟩] none
+      (get exDb'.ws.working "t") [2, 1, 0]) ∧
+    (exDb'.diffTable "t").map List.length = some 4 := by
+  decide +kernel
 
 end DoltVerif.C32
